@@ -248,6 +248,26 @@ Theorem fast_lookup_link_address : forall bias syms a n,
 Proof. exact fast_lookup_link_address_lemma. Qed.
 Print Assumptions fast_lookup_link_address.
 
+(* -- legacy profiles: massageMappings merges adjacent memory-map entries -- *)
+(* two adjacent entries that are pieces of one segment image are accepted as adjacent ... *)
+Theorem pieces_adjacent : forall lm m img,
+  pieceb (emap_of_gm lm) img = true -> pieceb (emap_of_gm m) img = true -> gm_limit lm = gm_start m ->
+  gm_name lm = gm_name m -> gm_buildid lm = gm_buildid m ->
+  0 <= gm_offset lm -> gm_offset lm + (gm_limit lm - gm_start lm) < two64 -> 0 <= gm_limit lm - gm_start lm < two64 ->
+  adjacent lm m = true.
+Proof. exact pieces_adjacent_lemma. Qed.
+Print Assumptions pieces_adjacent.
+
+(* ... and the merged entry is again a piece of that image, with the start - offset of both parts
+   (the quantity the base is computed from) *)
+Theorem merge_adjacent_piece : forall lm m img,
+  pieceb (emap_of_gm lm) img = true -> pieceb (emap_of_gm m) img = true -> gm_limit lm = gm_start m ->
+  pieceb (emap_of_gm (merge_adjacent lm m)) img = true /\
+  gm_start (merge_adjacent lm m) - gm_offset (merge_adjacent lm m) = gm_start lm - gm_offset lm /\
+  gm_start (merge_adjacent lm m) - gm_offset (merge_adjacent lm m) = gm_start m - gm_offset m.
+Proof. exact merge_adjacent_piece_lemma. Qed.
+Print Assumptions merge_adjacent_piece.
+
 (* -- the hypotheses are satisfiable -- *)
 (* exe_linux_64 of binutils_test.go (LOAD off 0 vaddr 0x400000 filesz 0x6fc R E; LOAD off 0xe10 vaddr
    0x600e10 filesz 0x230 memsz 0x238 RW) as a PIE image at bias 0x555555554000 *)
